@@ -10,10 +10,13 @@ A *case* is a JSON dict:
             A group (a task that has sub-tasks) is directly followed by its sub-tasks and its task_dep ends with them
             (that is what doit's loader produces); `task_dep` is the list *after* loading.
   pos, defaults (None | [str]), cleandep, cleanall, dryrun, forget : the command line / DOIT_CONFIG
-  files, dirs : the target tree before `clean` (relative paths; every parent directory of an entry is in dirs)
+  files, dirs : the target tree before `clean` (relative paths; every parent directory of an entry is in dirs;
+                `../x` lies outside the tree)
+  links : [[path, destination as written in the link]] symbolic links created after files and dirs
   backend : json | dbm | sqlite3;   ran : labels given to `doit run` beforehand (so that there is state to forget)
 """
 import contextlib
+import functools
 import io
 import json
 import os
@@ -35,6 +38,8 @@ def _on_alarm(signum, frame):
 
 
 KINDS = ['none', 'targets', 'actions']
+PLAIN_FORMS = ['def', 'kwargs', 'args', 'default', 'partial', 'object']    # no parameter named dryrun
+AWARE_FORMS = ['def', 'default', 'kwonly', 'partial', 'object']            # a parameter named dryrun
 DBNAME = {'json': 'db.json', 'dbm': 'db.dbm', 'sqlite3': 'db.sqlite'}
 
 
@@ -87,7 +92,8 @@ def norm_case(case):
         elif t['kind'] == 'actdry':
             t['kind'], t['actions'] = 'actions', [{'type': 'aware', 'eff': None}]
         elif t['kind'] == 'actions':
-            t['actions'] = [{'type': a['type'], 'eff': a.get('eff')} for a in t.get('actions', [])]
+            t['actions'] = [{'type': a['type'], 'eff': a.get('eff'), 'form': a.get('form', 'def')}
+                            for a in t.get('actions', [])]
         else:
             t.pop('actions', None)
         tasks.append(t)
@@ -123,28 +129,78 @@ def build_namespace(case, log, out, cmdlog='/dev/null'):
             return {'v': i}
         return act
 
-    def clean_plain(i, k, eff):
-        def clean_fn():
-            log.append(('ran', i, k, False, len(out.getvalue())))
-            _apply_eff(eff)
-        clean_fn.__qualname__ = clean_fn.__name__ = 'cleanact_%d_%d' % (i, k)
-        return clean_fn
+    def name_it(fn, i, k):
+        fn.__qualname__ = fn.__name__ = 'cleanact_%d_%d' % (i, k)
+        return fn
 
-    def clean_dry(i, k, eff):
-        def clean_fn(dryrun):
+    def clean_plain(i, k, eff, form='def'):
+        """a python clean action WITHOUT a parameter named `dryrun`, in several shapes (all must be left alone by
+        --dry-run): plain def, **kwargs catch-all, *args, a defaulted other parameter, functools.partial, object"""
+        def record(seen_dry=False):
+            log.append(('ran', i, k, bool(seen_dry), len(out.getvalue())))
+            _apply_eff(eff)
+        if form == 'kwargs':
+            def clean_fn(**opts):
+                record(opts.get('dryrun', False))
+        elif form == 'args':
+            def clean_fn(*args):
+                record()
+        elif form == 'default':
+            def clean_fn(verbose=False):
+                record()
+        elif form == 'partial':
+            def inner(tag):
+                record()
+            return functools.partial(name_it(inner, i, k), 'x')
+        elif form == 'object':
+            class Obj(object):
+                def __call__(self):
+                    record()
+
+                def __repr__(self):
+                    return '<cleanact_%d_%d object at 0x0>' % (i, k)
+            return Obj()
+        else:
+            def clean_fn():
+                record()
+        return name_it(clean_fn, i, k)
+
+    def clean_dry(i, k, eff, form='def'):
+        """a python clean action WITH a parameter named `dryrun` (called on every clean, told the flag)"""
+        def record(dryrun):
             log.append(('ran', i, k, bool(dryrun), len(out.getvalue())))
             if not dryrun:
                 _apply_eff(eff)
-        clean_fn.__qualname__ = clean_fn.__name__ = 'cleanact_%d_%d' % (i, k)
-        return clean_fn
+        if form == 'default':
+            def clean_fn(dryrun=False):
+                record(dryrun)
+        elif form == 'kwonly':
+            def clean_fn(*, dryrun):
+                record(dryrun)
+        elif form == 'partial':
+            def inner(tag, dryrun):
+                record(dryrun)
+            return functools.partial(name_it(inner, i, k), 'x')
+        elif form == 'object':
+            class Obj(object):
+                def __call__(self, dryrun):
+                    record(dryrun)
+
+                def __repr__(self):
+                    return '<cleanact_%d_%d object at 0x0>' % (i, k)
+            return Obj()
+        else:
+            def clean_fn(dryrun):
+                record(dryrun)
+        return name_it(clean_fn, i, k)
 
     def clean_list(i):
         res = []
         for k, a in enumerate(tasks[i].get('actions', [])):
             if a['type'] == 'aware':
-                res.append(clean_dry(i, k, a.get('eff')))
+                res.append(clean_dry(i, k, a.get('eff'), a.get('form', 'def')))
             elif a['type'] == 'plain':
-                res.append(clean_plain(i, k, a.get('eff')))
+                res.append(clean_plain(i, k, a.get('eff'), a.get('form', 'def')))
             else:
                 res.append('echo %d %d >> %s; %s' % (i, k, cmdlog, _shell_eff(a.get('eff'))))
         return res
@@ -189,21 +245,41 @@ def build_namespace(case, log, out, cmdlog='/dev/null'):
 
 
 def make_world(case):
+    """cwd is <root>/w; paths starting with `../` lie outside the target tree (still inside the scratch root)"""
     for d in sorted(case['dirs']):
         os.makedirs(d, exist_ok=True)
     for f in case['files']:
+        if os.path.dirname(f):
+            os.makedirs(os.path.dirname(f), exist_ok=True)
         with open(f, 'w') as fh:
             fh.write('x')
+    for link, dest in case.get('links', []):
+        if os.path.dirname(link):
+            os.makedirs(os.path.dirname(link), exist_ok=True)
+        os.symlink(dest, link)
 
 
 def snapshot():
-    files, dirs = [], []
-    for root, ds, fs in os.walk('.'):
-        for d in ds:
-            dirs.append(os.path.relpath(os.path.join(root, d), '.'))
-        for f in fs:
-            files.append(os.path.relpath(os.path.join(root, f), '.'))
-    return sorted(files), sorted(dirs)
+    """(files, dirs, links) of the whole scratch root, paths relative to the cwd (<root>/w); links are pairs
+    (path of the link, resolved destination); the DB files and the shell log at the root are not part of it"""
+    files, dirs, links = [], [], []
+    here = os.path.realpath('.')
+    top = os.path.dirname(here)
+    for root, ds, fs in os.walk(top):
+        for name in list(ds) + list(fs):
+            full = os.path.join(root, name)
+            rel = os.path.relpath(full, here)
+            if root == top and (name.startswith('db.') or name == 'cmdlog'):
+                continue
+            if rel == '.':
+                continue
+            if os.path.islink(full):
+                links.append([rel, os.path.relpath(os.path.realpath(full), here)])
+            elif name in ds:
+                dirs.append(rel)
+            else:
+                files.append(rel)
+    return sorted(files), sorted(dirs), sorted(links)
 
 
 def read_db(backend, path, labels):
@@ -298,7 +374,7 @@ def run_impl(case):
             code, o, e = doit_main(ns, ['run'] + list(case['ran']))
             obs['run_code'] = code
         make_world(case)
-        obs['files0'], obs['dirs0'] = snapshot()
+        obs['files0'], obs['dirs0'], obs['links0'] = snapshot()
         db0 = read_db(case['backend'], dbpath, labels)
         obs['db0'] = sorted(db0)
         # 2. clean
@@ -370,7 +446,7 @@ def run_impl(case):
             obs['outcome'] = 'key-error'
         else:
             obs['outcome'] = 'error:%s' % (etext.strip().split('\n')[-1][:120] if etext.strip() else code)
-        obs['files'], obs['dirs'] = snapshot()
+        obs['files'], obs['dirs'], obs['links'] = snapshot()
         db1 = read_db(case['backend'], dbpath, labels)
         obs['db'] = sorted(db1)
         obs['db_survivors_intact'] = all(db1[k] == db0.get(k) for k in db1)
@@ -399,9 +475,11 @@ def to_req(case, obs=None):
            'cleandep': bool(case.get('cleandep')), 'cleanall': bool(case.get('cleanall')),
            'dryrun': bool(case.get('dryrun')), 'forget': bool(case.get('forget')),
            'files': (obs or {}).get('files0', case['files']), 'dirs': (obs or {}).get('dirs0', case['dirs']),
+           'links': (obs or {}).get('links0', []),
            'db': (obs or {}).get('db0', [])}
     if obs is not None and obs.get('outcome') == 'ok':
-        req['obs'] = {'order': obs['order'], 'files': obs['files'], 'dirs': obs['dirs'], 'db': obs['db']}
+        req['obs'] = {'order': obs['order'], 'files': obs['files'], 'dirs': obs['dirs'], 'db': obs['db'],
+                      'links': obs.get('links', [])}
     return req
 
 
@@ -417,6 +495,8 @@ def compare(case, obs, ans):
         return ['outcome: impl %s model %s' % (obs.get('outcome'), ans.get('outcome'))]
     if ans.get('outcome') != 'ok':
         return diffs
+    if ans.get('crashed'):
+        return ['the model says os.rmdir is called on a symbolic link (the command dies there); not compared further']
     if ans.get('oof'):
         diffs.append('model ran out of fuel')
     m_events = [e for e in ans['events'] if e[0] != 'cmd']
@@ -425,6 +505,8 @@ def compare(case, obs, ans):
         diffs.append('events: impl %s model %s' % (obs['events'], m_events))
     if obs.get('cmds', []) != m_cmds:
         diffs.append('shell clean actions executed: impl %s model %s' % (obs.get('cmds'), m_cmds))
+    if sorted(l[0] for l in obs.get('links', [])) != sorted(ans.get('links', [])):
+        diffs.append('links: impl %s model %s' % (obs.get('links'), ans.get('links')))
     for k in ('files', 'dirs', 'db'):
         if sorted(obs[k]) != sorted(ans[k]):
             diffs.append('%s: impl %s model %s' % (k, obs[k], ans[k]))
@@ -439,6 +521,7 @@ def monitor(case, obs, ans):
     if obs.get('outcome') != 'ok':
         # the property speaks about successful clean invocations; a refusal must at least leave everything alone
         if obs.get('files0') is not None and (obs.get('files') != obs.get('files0') or obs.get('dirs') != obs.get('dirs0')
+                                              or obs.get('links') != obs.get('links0')
                                               or obs.get('db') != obs.get('db0') or obs.get('events')):
             failed.append('a refused invocation changed files/DB or ran clean behaviour')
         return failed
